@@ -133,6 +133,7 @@ type WStatJ struct {
 
 type ObsJ struct {
 	Lat   []*WStatJ `json:"lat,omitempty"` // latency cases: per window, nil = nothing written
+	Fed   bool      `json:"fed,omitempty"` // cache-latency cases: the call announced something
 	Res   string    `json:"res"` // ok stale future other multi panic
 	Multi []string  `json:"multi,omitempty"`
 	Feed  []NotiJ   `json:"feed,omitempty"`
@@ -1108,6 +1109,10 @@ type emitter struct {
 func (e *emitter) add(c *Case) {
 	if c.Kind == "lat" {
 		addLatCase(e, c)
+		return
+	}
+	if c.Kind == "clat" {
+		addClatCase(e, c)
 		return
 	}
 	runCase(c)
